@@ -1,0 +1,14 @@
+//go:build verif
+
+package partitions
+
+import "github.com/0chain/common/core/util"
+
+// VerifEntityPrototypes returns the stored types of this package (verification harness, C08).
+func VerifEntityPrototypes() []func() util.MPTSerializable {
+	return []func() util.MPTSerializable{
+		func() util.MPTSerializable { return &Partitions{} },
+		func() util.MPTSerializable { return &partition{} },
+		func() util.MPTSerializable { return &location{} },
+	}
+}
